@@ -56,8 +56,20 @@ def showOptEntry : Option Entry → String
 
 def b01 (b : Bool) : String := if b then "1" else "0"
 
+/-- a trigger asked directly `k` times in a row, each time with its previous answer (what the loop does after an
+on-time execution); stops at the trigger's own error -/
+def fireChain (t : Trig) (prev : Int) : Nat → List String
+  | 0 => []
+  | k + 1 =>
+    match t.fire prev with
+    | (some v, t') => toString v :: fireChain t' v k
+    | (none, _) => ["e"]
+
 def schedStep (st : SchedSt) (ws : List String) : SchedSt × String :=
   match ws with
+  | ["fire", tr, prev, k] => match parseTrig tr, parseInt? prev, k.toNat? with
+    | some (some t), some p, some k => (st, "ok " ++ ",".intercalate (fireChain t p k))
+    | _, _, _ => (st, "bad-op")
   | ["new", thr] => match parseInt? thr with
     | some t => ({ s := {}, threshold := t }, "ok")
     | none => (st, "bad-op")
